@@ -1,6 +1,7 @@
 SPECIFICATION TraceSpec
 CONSTANTS Weights = {}
  MaxSigners = 0
+ ExtraCfgs = {}
  MaxSigs = 0
  TamperFields = {}
  PayCfgs = {}
